@@ -1,25 +1,25 @@
-\* C03 quick: unreliable + reliable ordered mixed in one tick
+\* C06 thorough: the full boundary domain.
 SPECIFICATION Spec
 CONSTANTS
   ChSC <- Ch_U_RO
   ChCS <- Ch_U_RO
   Budget = 60000
-  Workload <- WL_mixed_U_RO
+  Workload <- WL_U_RO_sliced
   MaxFlushS = 0
   MaxFlushC = 1
   MaxTicks = 0
   Dts = {300}
-  MaxDeliver = 2
+  MaxDeliver = 1
   HealDt = 300
-  HealRounds = 3
-  Bound = 3
-  HealLose = {TRUE, FALSE}
-  Reorder = TRUE
+  HealRounds = 1
+  Bound <- NoBound
+  HealLose = {FALSE}
+  Reorder = FALSE
   RecvAnywhere = FALSE
-  PropsOn <- P_C03
-  MaxHostile = 0
-  HostileSet = "none"
-  ExportAll = TRUE
+  PropsOn <- P_C06
+  MaxHostile = 1
+  HostileSet = "full"
+  ExportAll = FALSE
   Export = TRUE
 INVARIANT NoFlag
 INVARIANT ExportInv
